@@ -64,3 +64,42 @@ Theorem C01_voronoi_1d : forall lo hi g sites x, ~ In g sites ->
    left2 lo g sites <= 2 * x <= right2 hi g sites).
 Proof. exact voronoi_1d. Qed.
 Print Assumptions C01_voronoi_1d.
+
+(* ---- the converse for every regular 3D construction, including the sites never looked at: every vertex of the built cell
+   is at least as close to the generator as to EVERY site (and inside the box), provided the sites are ordered by distance
+   (what the neighbour search guarantees, C17) and the construction is regular - a decidable predicate evaluated by the
+   extracted model for every compared cell (`build_regularb`): every created vertex has three linearly independent
+   planes, no boundary cycle has fewer than three edges, a cell returned unchanged had no vertex to remove.
+   Proof idea: a new vertex (a, b, q) is the crossing of the edge a /\ b between a kept and a removed vertex with q (their
+   existence follows from the closed-surface invariant), hence a non-negative combination of two feasible points;
+   sites beyond the safety radius cannot cut anything inside it (C16). *)
+From Coq Require Import Sorted.
+From MV Require Import Proofs.Feasible.
+Theorem C01_vertices_feasible_3d : forall lo hi g sites c,
+  (let '(lx, ly, lz) := lo in let '(hx, hy, hz) := hi in lx < hx /\ ly < hy /\ lz < hz) ->
+  StronglySorted (fun a b => dist2 g a <= dist2 g b) sites ->
+  build_regular 3 g sites 0 (cell_init lo hi) -> build 3 lo hi g sites = Some c ->
+  Forall (fun v => 0 < snd (vloc v) /\ Forall (fun r => 0 <= side r (vloc v)) (walls lo hi) /\
+                   forall s, In s sites -> 0 <= side (bisector g s) (vloc v)) (cverts c).
+Proof. exact build_vertices_feasible_3d. Qed.
+Print Assumptions C01_vertices_feasible_3d.
+
+Theorem C01_hull_in_region_3d : forall lo hi g sites c l,
+  (let '(lx, ly, lz) := lo in let '(hx, hy, hz) := hi in lx < hx /\ ly < hy /\ lz < hz) ->
+  StronglySorted (fun a b => dist2 g a <= dist2 g b) sites ->
+  build_regular 3 g sites 0 (cell_init lo hi) -> build 3 lo hi g sites = Some c ->
+  Forall (fun '(lam, p) => 0 <= lam /\ exists v, In v (cverts c) /\ p = vloc v) l ->
+  Exists (fun '(lam, _) => 0 < lam) l ->
+  forall s, In s sites -> closer g s (hcomb l).
+Proof. exact build_hull_in_region_3d. Qed.
+Print Assumptions C01_hull_in_region_3d.
+
+Theorem C01_regularity_is_decidable : forall dim g sites prev c,
+  build_regularb dim g sites prev c = true -> build_regular dim g sites prev c.
+Proof. exact build_regularb_spec. Qed.
+Print Assumptions C01_regularity_is_decidable.
+
+(* non-vacuity: a regular two-generator construction *)
+Example C01_regular_example :
+  build_regularb 3 (2,2,2) [(1, 0, (6,6,6))] 0 (cell_init (0,0,0) (8,8,8)) = true.
+Proof. vm_compute. reflexivity. Qed.
